@@ -223,6 +223,26 @@ pub fn check_state(ctx: &mut Ctx, s: &St) {
     None::<String>
   );
   obs!("get_byte_slice_exclusive_max", r.get_byte_slice(0..usize::MAX).map(|x| x.to_string()), None::<String>);
+  // the public unchecked slicer, called only within its documented contract (in range, start <= end,
+  // both ends on char boundaries of the string the rope stands for): same answer as the checked one,
+  // and (C19) no guarded precondition / std ub_check fires on the way
+  let bs = boundaries(m);
+  for &a in &bs {
+    for &e in &bs {
+      if a <= e {
+        ctx.transitions += 1;
+        #[allow(unsafe_code)]
+        {
+          obs!("byte_slice_unchecked", unsafe { r.byte_slice_unchecked(a..e) }.to_bytes().into_owned(), m.as_bytes()[a..e].to_vec());
+        }
+      }
+    }
+    #[allow(unsafe_code)]
+    {
+      obs!("byte_slice_unchecked_from", unsafe { r.byte_slice_unchecked(a..) }.to_bytes().into_owned(), m.as_bytes()[a..].to_vec());
+      obs!("byte_slice_unchecked_to", unsafe { r.byte_slice_unchecked(..a) }.to_bytes().into_owned(), m.as_bytes()[..a].to_vec());
+    }
+  }
   ctx.traces_validated += 1;
 }
 
